@@ -6,6 +6,7 @@ import SeqVerif.Model.FetchDocsSpec
 import SeqVerif.Model.FetchFracs
 import SeqVerif.Model.FetchStream
 import SeqVerif.Model.FetchBytes
+import SeqVerif.Model.FetchActive
 import SeqVerif.Extracted.C04
 /-!
 # C04 - fetch returns each stored document verbatim; unknown IDs are just "not found"
@@ -143,6 +144,73 @@ theorem c04_positions_by_blocks (cap : Nat) (hcap : 0 < cap) (pos : List Nat) (l
 theorem c04_extract_verbatim (pre d post : List Nat) (hlen : d.length < 4294967296) :
     extractDoc (pre ++ encDoc d ++ post) pre.length = d := extractDoc_enc pre d post hlen
 
+/-! ## The active fraction, statement level (after "fix: fetch from an active fraction failed for a document whose
+block landed after the provider was created") -/
+
+/-- **active fraction, end to end on bytes**: a document laid down by a bulk (`len32le ++ bytes` at `pre.length` of
+the bulk's block) under a new ID is answered verbatim by `DocsPositions.Get` + `Unpack` + `GetBlocksOffsets` +
+`ReadDocs`, in every later state of the fraction and for a data provider whose copy of the block table was taken at
+ANY moment (any prefix `take s` of the live table) - in particular before the bulk's block was appended. -/
+theorem c04_active_fetch_verbatim (bits : Nat) (st : Active) (off : Nat) (pre d post : List Nat)
+    (entries epre epost : List (ID × Nat)) (id : ID)
+    (hnew : (st.positions.find? fun x => x.1 = id) = none)
+    (hent : entries = epre ++ (id, pre.length) :: epost) (hfirst : ∀ x, x ∈ epre → x.1 ≠ id)
+    (hlen : d.length < 4294967296) (hoff : pre.length < 2 ^ bits) (hblk : st.docBlocks.length < 4294967296)
+    (hfit : st.docBlocks.length * 2 ^ bits + pre.length + 1 < 18446744073709551615)
+    (st' : Active) (hext : Ext (st.append bits off (pre ++ encDoc d ++ post) entries) st') (s : Nat) :
+    mapGet st'.positions id = packDocPos bits st.docBlocks.length pre.length ∧
+    mapGet st'.positions id ≠ notFound ∧
+    activeReadDoc (st'.docBlocks.take s) st' (unpackDocPos bits (mapGet st'.positions id)).1
+      (unpackDocPos bits (mapGet st'.positions id)).2 = some d :=
+  active_fetch_verbatim bits st off pre d post entries epre epost id hnew hent hfirst hlen hoff hblk hfit st' hext s
+
+/-- the same in the vocabulary of `c04_fetch_eq_spec`: for the active fraction seen as a `Frac` (`Active.toFrac`,
+positions live, provider copy `take s`), the Spec's `holds` of that ID is the ingested bytes -/
+theorem c04_active_spec_is_ingested_bytes (bits : Nat) (st : Active) (off : Nat) (pre d post : List Nat)
+    (entries epre epost : List (ID × Nat)) (id : ID)
+    (hnew : (st.positions.find? fun x => x.1 = id) = none)
+    (hent : entries = epre ++ (id, pre.length) :: epost) (hfirst : ∀ x, x ∈ epre → x.1 ≠ id)
+    (hlen : d.length < 4294967296) (hoff : pre.length < 2 ^ bits) (hblk : st.docBlocks.length < 4294967296)
+    (hfit : st.docBlocks.length * 2 ^ bits + pre.length + 1 < 18446744073709551615)
+    (st' : Active) (hext : Ext (st.append bits off (pre ++ encDoc d ++ post) entries) st') (s name : Nat)
+    (contains : Nat → Bool) (intersects : Nat → Nat → Bool) (P : Frac (List Nat) → ID → Nat)
+    (hP : P (st'.toFrac s name contains intersects) = mapGet st'.positions) :
+    holds bits P (st'.toFrac s name contains intersects) id = some d := by
+  unfold holds
+  rw [hP]
+  exact active_toFrac_doc bits st off pre d post entries epre epost id hnew hent hfirst hlen hoff hblk hfit st' hext
+    s name contains intersects
+
+/-- later bulks (each at a fresh file offset) only extend the state, so the theorem above applies to every
+reachable later state -/
+theorem c04_active_append_extends (bits : Nat) (st : Active) (off : Nat) (payload : List Nat)
+    (entries : List (ID × Nat)) (hfresh : off ∉ st.docBlocks) : Ext st (st.append bits off payload entries) :=
+  Ext.append bits st off payload entries hfresh
+
+/-- `GetBlocksOffsets` never indexes past the table for a block number below the live length, whatever the copy -/
+theorem c04_active_blocks_in_table (live : List Nat) (s num : Nat) (h : num < live.length) :
+    activeBlocksOffset (live.take s) live num = some live[num] := activeBlocksOffset_prefix live s num h
+
+/-- historical: with the provider's copy alone a block appended after the copy is out of range -/
+theorem c04_active_blocks_old_witness : (([10, 20] : List Nat).take 1)[1]? = none := by decide
+
+/-- **the docs-block cache key `uint32(blockOffset)` is sound exactly when no two block offsets of one docs file
+agree modulo 2^32** (true for every docs file below 4 GiB, `c04_cache_key_below_4GiB`) ... -/
+theorem c04_cache_key_sound (cache : Nat → Option (List Nat)) (file : Nat → List Nat) (offsets : List Nat)
+    (hfill : CacheFilledFrom cache file offsets)
+    (hinj : ∀ a b, a ∈ offsets → b ∈ offsets → a % 4294967296 = b % 4294967296 → a = b)
+    (off : Nat) (hoff : off ∈ offsets) : cachedRead cache file off = file off :=
+  cachedRead_sound cache file offsets hfill hinj off hoff
+
+theorem c04_cache_key_below_4GiB (offsets : List Nat) (h : ∀ o, o ∈ offsets → o < 4294967296) :
+    ∀ a b, a ∈ offsets → b ∈ offsets → a % 4294967296 = b % 4294967296 → a = b :=
+  offsets_below_4GiB_injective offsets h
+
+/-- ... and unsound beyond: blocks at file offsets 0 and 4 GiB share a key, the read of the second returns the first -/
+theorem c04_cache_key_collision_witness :
+    cachedRead (fun k => if k = 0 then some [1] else none) (fun o => if o = 0 then [1] else [2]) 4294967296 = [1] :=
+  cachedRead_collision_witness
+
 /-! ## The definitions as first written, and why the property failed on them -/
 
 /-- before the repair, two absent IDs next to a 2-byte document divide by zero (process dies) -/
@@ -264,6 +332,18 @@ example :
     (by decide) (by decide)]
   decide
 end Example
+
+/-- an empty active fraction, a bulk of two documents, a second bulk, a provider copy taken before everything -/
+example :
+    let st0 : Active := ⟨[], [], fun _ => []⟩
+    let st1 := st0.append 30 0 ([] ++ encDoc [97, 98] ++ encDoc [99]) [(⟨7, 1⟩, 0), (⟨7, 2⟩, 6)]
+    let st2 := st1.append 30 11 (encDoc [100]) [(⟨8, 1⟩, 0)]
+    activeReadDoc (st2.docBlocks.take 0) st2 (unpackDocPos 30 (mapGet st2.positions ⟨7, 1⟩)).1
+      (unpackDocPos 30 (mapGet st2.positions ⟨7, 1⟩)).2 = some [97, 98] := by
+  intro st0 st1 st2
+  exact (c04_active_fetch_verbatim 30 st0 0 [] [97, 98] (encDoc [99]) [(⟨7, 1⟩, 0), (⟨7, 2⟩, 6)] [] [(⟨7, 2⟩, 6)] ⟨7, 1⟩
+    rfl rfl (by simp) (by decide) (by decide) (by decide) (by decide) st2
+    (c04_active_append_extends 30 st1 11 (encDoc [100]) [(⟨8, 1⟩, 0)] (by decide)) 0).2.2
 
 example : Desc [⟨100, 100⟩, ⟨5, 9⟩, ⟨5, 7⟩, ⟨3, 3⟩] := by decide
 example : findLIDsFixed [⟨100, 100⟩, ⟨5, 9⟩, ⟨5, 7⟩, ⟨3, 3⟩] [⟨5, 7⟩, ⟨5, 8⟩, ⟨3, 2⟩, ⟨9, 9⟩] = some [2, 0, 0, 0] := by
